@@ -64,6 +64,10 @@ struct Plan {
     /// then hands out the creation value the node already had (1)
     #[serde(default)]
     calls_before_start: u32,
+    /// (start ms, duration ms): another user of the connection (Node::connections()) keeps its mutex
+    /// for that long, e.g. a sender whose write is slow; calls queue up behind it
+    #[serde(default)]
+    lock_holds: Vec<(u64, u64)>,
     #[serde(default)]
     salt: u64,
 }
@@ -126,6 +130,7 @@ impl Scenario for C17 {
             conn_fault_at: 0,
             conn_fault_delay_ms: 0,
             calls_before_start: if r.chance(1, 10) { r.range(1, 3) as u32 } else { 0 },
+            lock_holds: if r.chance(1, 8) { (0..r.range(1, 2)).map(|_| (r.below(60), *r.pick(&[300u64, 2_000, 8_000, 40_000]))).collect() } else { Vec::new() },
             salt: r.next_u64(),
         };
         let m = margin_ms(&p);
@@ -174,7 +179,7 @@ impl Scenario for C17 {
 
     fn info(&self) -> Info {
         Info {
-            rule: "one run = 1..8 caller tasks x 1..4 rpc_call_raw_with_timeout on one real Node against a simulated rex that, per call, replies after a planned delay (well before / within a margin of / after the caller's timeout), twice, never, to an unknown pid, or re-sends an earlier call's reply; optionally one connection fault (peer close, peer reset, write error at a byte offset); calls to a never-connected node; seeded yield points around the outstanding-call table steps; configuration A (no faults, strict outcome oracle) and B (faults, relaxed narrowly) drawn per run. Non-trivial = at least two caller tasks; distinct = distinct (transfer/yield sequence, event log).",
+            rule: "one run = 1..8 caller tasks x 1..4 rpc_call_raw_with_timeout on one real Node against a simulated rex that, per call, replies after a planned delay (well before / within a margin of / after the caller's timeout), twice, never, to an unknown pid, or re-sends an earlier call's reply; optionally one connection fault (peer close, peer reset, write error at a byte offset); optionally another user of the connection holding its mutex for 0.3..40 s while calls queue up; calls to a never-connected node; seeded yield points around the outstanding-call table steps; configuration A (no faults, strict outcome oracle) and B (faults, relaxed narrowly) drawn per run. Non-trivial = at least two caller tasks; distinct = distinct (transfer/yield sequence, event log).",
             components_real: &["edp_node::Node (rpc_call*, connect, receiver task, route_message)", "edp_client::Connection (handshake, send path, receive_message_from_read_half)", "edp_client::PidAllocator", "tokio oneshot/Mutex/timers (paused clock)", "dashmap"],
             components_stubbed: &["TCP (SimNet)", "EPMD (stub)", "remote node: handshake acceptor + rex model with an independent frame/term reader"],
             assumptions: &["the peer ticks every 5 simulated seconds so that the receiver's 10 s read timeout (a C19 question) does not interfere", "RpcTimeout is judged inadmissible only if a reply addressed to the call was written by the peer at least `margin` before the call returned (margin = injected network/yield delay bound)"],
@@ -448,6 +453,21 @@ async fn scenario(w: &Arc<World>, p: &Plan) {
     w.set_yield_cfg(YieldCfg { intensity: p.yield_intensity, site_mask: p.yield_mask, max_sleep_ms: p.yield_sleep_ms });
 
     let mut tasks = Vec::new();
+    for (start, dur) in p.lock_holds.iter().copied() {
+        let node = node.clone();
+        let w = w.clone();
+        tasks.push(tokio::spawn(async move {
+            tokio::time::sleep(Duration::from_millis(start)).await;
+            let conn = node.connections().get(PEER_NAME).map(|e| Arc::clone(e.value()));
+            if let Some(conn) = conn {
+                let guard = conn.lock().await;
+                w.stat("fault.connection_mutex_held");
+                w.ev(format!("connection mutex held for {}ms from {}ms", dur, World::now_ms()));
+                tokio::time::sleep(Duration::from_millis(dur)).await;
+                drop(guard);
+            }
+        }));
+    }
     for (ci, calls) in p.callers.iter().enumerate() {
         let node = node.clone();
         let calls = calls.clone();
